@@ -430,9 +430,9 @@ def run(args):
             dict(arch="simple", M=8, KN=4, metrics=("ENERGY", "LATENCY"), throughputs={"MAC": 3}),
             dict(arch="simple", M=8, KN=4, metrics=("ENERGY", "LATENCY"), throughputs={"GlobalBuffer": 3, "MAC": "inf"})]
     if args.tier == "thorough":
-        cfgs += [dict(arch="a3", M=12, KN=6, metrics=("ENERGY", "LATENCY"), imperfect=True, glb_size=65536),
-                 dict(arch="simple", M=8, KN=6, metrics=("LATENCY",), glb_size=1024),
-                 dict(arch="a3", M=6, KN=12, metrics=("ENERGY_DELAY_PRODUCT",), glb_size=65536)]
+        # (two further configurations - a3 with imperfect factorisation, simple with a 1024-bit buffer and LATENCY only -
+        # were dropped from the tier: with them the command did not finish within 25 minutes)
+        cfgs += [dict(arch="a3", M=6, KN=12, metrics=("ENERGY_DELAY_PRODUCT",), glb_size=65536)]
     per_cfg = 16 if args.tier == "quick" else 40
     payloads = []
     for cfg in cfgs:
